@@ -142,7 +142,9 @@ pub fn dispatch(p: &[String]) -> String {
                 let m = b.module();
                 b = rspirv::dr::Builder::new_from_module(m);
             }
-            b.set_version(1, 5);
+            let major: u8 = if p.len() > 2 { p[2].parse().unwrap_or(1) } else { 1 };
+            let minor: u8 = if p.len() > 3 { p[3].parse().unwrap_or(5) } else { 5 };
+            b.set_version(major, minor);
             let m = b.module();
             let words = m.assemble();
             let v = m.header.as_ref().map(|h| h.version());
@@ -178,6 +180,8 @@ pub fn dispatch(p: &[String]) -> String {
                 },
             }
         }
+        "parse_assemble_kind" => generated::parse_assemble_kind(&p[1], p[2].parse::<u64>().unwrap_or(0) as u32, if p.len() > 3 { p[3].parse::<u64>().unwrap_or(0) as u32 } else { 0 }),
+        "id_ref_any" => generated::id_ref_any(&p[1], p[2].parse::<u64>().unwrap_or(0)),
         "storage_step" => storage_step(&p[1], if p.len() > 2 { &p[2] } else { "-" }),
         "lift_probe" => generated::lift_probe(p[1].parse::<u32>().unwrap_or(0)),
         "disas_operand" => generated::disas_operand(&p[1], p[2].parse::<u64>().unwrap_or(0)),
